@@ -226,7 +226,7 @@ def _recording_mt_buffer(rec, base, cap):
 
         def sample_batch(self, *a, **k):
             out = super().sample_batch(*a, **k)
-            rec.emit("sample", n=int(len(self)), task=int(self.sampled_task_idx))
+            rec.emit("sample", n=int(len(self)), task=int(getattr(self, "sampled_task_idx", -1)))
             return out
 
     return RecordingMultiTaskReplayBuffer(ReplayBuffer(cap), N_TASKS)
